@@ -36,7 +36,10 @@ class DocGen:
         if fam:      # an attrpath family with equal leaves and values, as in NixOS modules
             root = R.choice(['services', 'programs']); mids = R.sample(['nginx', 'openssh', 'git', 'zsh'], R.randint(2, 3))
             if root not in names:
-                for m in mids: lines.append(' ' * ind + '%s.%s.enable = true;' % (root, m))
+                if R.random() < 0.5:
+                    for m in mids: lines.append(' ' * ind + '%s.%s.enable = true;' % (root, m))
+                else:                 # two-segment siblings sharing a prefix
+                    for j, m in enumerate(mids): lines.append(' ' * ind + '%s.%s = %d;' % (root, m, j + 1))
         if R.random() < 0.15: lines.append(self.comment(ind))
         return lines
     def mset(self, ind, depth):
